@@ -237,6 +237,11 @@ pub const SUSPEND: Profile = Profile {
     handle_w: [6, 2, 1, 2, 1, 1],
 };
 
+thread_local! {
+    /// thorough tier: every second case is generated with larger bounds (one more thread, three more operations per thread)
+    pub static BIG: std::cell::Cell<bool> = const { std::cell::Cell::new(false) };
+}
+
 pub struct Gen<'a> {
     /// pool 0 with one context: a future that has been polled is awaited to completion
     /// (nothing else could ever run the queue its poll has claimed)
@@ -572,8 +577,9 @@ pub fn gen_faults(rng: &mut Rng, enabled: bool) -> Faults {
 
 pub fn gen_general(rng: &mut Rng, p: &Profile) -> Program {
     let pool_max = *rng.pick(p.pools);
+    let big = BIG.with(|b| b.get());
     let n_objs = rng.range(p.objs.0, p.objs.1) as usize;
-    let mut n_threads = rng.range(p.threads.0, p.threads.1) as usize;
+    let mut n_threads = rng.range(p.threads.0, p.threads.1 + big as u64) as usize;
     // pool 0: only the shapes for which something is promised
     let mut sync_only = false;
     if pool_max == 0 {
@@ -589,7 +595,7 @@ pub fn gen_general(rng: &mut Rng, p: &Profile) -> Program {
     g.no_abandon = pool_max == 0 && !sync_only;
     let mut threads = vec![];
     for _ in 0..n_threads {
-        let n_ops = g.rng.range(p.ops.0, p.ops.1) as usize;
+        let n_ops = g.rng.range(p.ops.0, p.ops.1 + if big { 3 } else { 0 }) as usize;
         threads.push(g.thread(p, n_ops, sync_only));
     }
     let env = if p.env_gates && g.rng.permille(700) {
